@@ -3,6 +3,7 @@ package schedsim
 import (
 	"os"
 	"runtime"
+	"strings"
 	"testing"
 
 	"pgregory.net/rapid"
@@ -14,6 +15,7 @@ func TestMain(m *testing.M) {
 	// One P: goroutines woken by the same event run in a fixed order,
 	// which keeps cases reproducible from their rapid fail file.
 	runtime.GOMAXPROCS(1)
+	startWatchdog()
 	os.Exit(m.Run())
 }
 
@@ -292,4 +294,38 @@ func TestC06RetryAndRedelivery(t *testing.T) {
 	}
 	runProperty(t, "C06", "schedsim-retry-redelivery",
 		schedRuleCommon+"retry-focused profile: one predeclared queue with 2-3 size classes, 2-4 workers spread over them, every request's learner asks for a retry on the largest size class, redelivery limit 1-3, workers often ask again for the task they hold and often report failures. Same oracles (INTERNAL exactly when a worker asked retryCount+1 times for the task it currently holds without reporting it, counted per assignment; re-issues never exceed the limit; retry goes to the largest size class). Non-trivial: a retry on the largest size class and at least one re-issue in the same case; distinct by script hash", p)
+}
+
+// TestC14SchedulerLockReleased decides the scheduler part of C14: after
+// every step of a generated history (error returns, cancelled and parked
+// calls, events delivered while the lock is held included) the scheduler's
+// lock must be free at quiescence, and every call that is not blocked by
+// design must have returned. The lock probe runs in every schedsim test;
+// this one weights the generator towards calls that fail or are cut short.
+func TestC14SchedulerLockReleased(t *testing.T) {
+	ops := []string{
+		"execute", "execute", "execute",
+		"sync", "sync", "sync", "sync", "syncCompleted",
+		"wait", "wait", "cancelStream", "cancelStream", "breakStream", "breakStream", "cancelSync", "cancelSync",
+		"kill", "killQueue", "addDrain", "removeDrain", "terminate", "cancelTerminate", "cancelTerminate",
+		"advance", "advanceSmall", "tick",
+		"parkSend", "releaseSend", "waitParked", "killParked", "releaseAuth",
+		"raceTimer", "raceCancel", "raceCancel",
+	}
+	p := &profile{
+		name: "C14", ops: ops, minSteps: 5, maxSteps: 50, instances: []string{"", "a", "zz"},
+		queues: defaultQueues, workers: [2]int{1, 3}, actions: [2]int{1, 3}, invDepth: [2]int{0, 2},
+		syncKinds: []string{"auto", "auto", "idle", "completed", "executing", "wrongExecuting", "wrongCompleted", "noState", "noState"}, finalDrain: true,
+		nontrivial: func(l labels) bool {
+			errs := 0
+			for k, n := range l {
+				if strings.HasPrefix(k, "sync_error_") || strings.HasPrefix(k, "rejected_") || k == "wait_not_found" {
+					errs += n
+				}
+			}
+			return errs > 0 && l["stream_left"] > 0 && l["assignment"] > 0
+		},
+	}
+	runProperty(t, "C14", "schedsim-lock-released",
+		schedRuleCommon+"oracle: after every step the scheduler's lock is free at quiescence (TryLock probe through the verif hook; a leaked lock ends the process with VERIF-VIOLATION because the bubble can no longer drain), in addition to all other scheduler oracles. Non-trivial: at least one call returned an error (rejected Execute, NOT_FOUND WaitExecution, failed Synchronize), at least one client left mid-call and at least one task was assigned; distinct by script hash", p)
 }
